@@ -4,15 +4,18 @@
    order the code performs them.  Atoms are LABELS (0..n-1).  Every per-atom datum carries the label
    of the atom it belongs to, so "the code used the drive of the wrong atom" is a visible fact.
 
-   Scenario  sc = [backend, n, rho, optp, reorder, spe, dark, given, dim]
+   Scenario  sc = [backend, n, rho, optp, reorder, spe, dark, given, dim, tagmode]
      rho[k]   label of the atom at REGISTER index k  (register order = insertion order = qubit_ids)
      optp     what optimat.minimize_bandwidth returns (any permutation: the optimiser is free)
      reorder  config.optimize_qubit_ordering        spe   state_prep_error > 0
      dark     set of labels Pulser marked as badly prepared (bad_atoms[k] = rho[k] \in dark)
      given    config.initial_state is given (its amplitude strings are in register order)
      dim      levels per atom (3 = with leakage)
+     tagmode  under which tags the per-atom observables store their results: "base" (occupation,
+              correlation_matrix, bitstrings), "suffix" (Occupation(tag_suffix="x") -> occupation_x, ...),
+              "both" (two instances of each observable: base tag and suffixed tag)
 
-   Variant  V = [siteOrder, padDim, small]   which revision of the code is transcribed:
+   Variant  V = [siteOrder, padDim, small, allTags]   which revision of the code is transcribed:
      siteOrder  FALSE: `self.omega = pulser_data.omega` and the bad-atom mask stay in REGISTER order
                        (as found)            TRUE: drive columns and mask are permuted into site order
      padDim     FALSE: extended_mps_factors / extended_mpo_factors hard-code physical dimension 2
@@ -21,11 +24,17 @@
                 TRUE:  with fewer than two well prepared atoms every atom stays in the chain and the
                        badly prepared ones are switched off (no drive, no interaction), as emu-sv does
 
+     allTags    FALSE: permute_results looks the results up by the EXACT tags "bitstrings" / "occupation" /
+                       "correlation_matrix", so results stored under a suffixed tag stay in site order
+                       (as found)            TRUE: every result whose observable has one of these BASE tags
+                       is brought back to register order
+
    Mechanism state  s  (index |-> label maps, all 0-based functions):
      qperm, atomOrder, drive (columns of self.omega/delta/phi), hasFilter, wp (well_prepared_qubits_filter),
      off (atoms switched off instead of removed), qc (self.qubit_count), init (letters of the MPS sites), imat (tagged matrix), ham (per site:
      <<drive label, interaction row label, interaction column label, initial letter label>>),
-     ext (state handed to the observables), occ / bits / corr (stored results), outcome.          *)
+     ext (state handed to the observables), occ / bits / corr (results stored under the base tags),
+     occX / bitsX / corrX (results stored under the suffixed tags), outcome.                        *)
 EXTENDS Perm, Sequences
 
 CONSTANT V
@@ -46,7 +55,9 @@ Bad(sc)             == [k \in Idx(sc.n) |-> sc.spe /\ sc.rho[k] \in sc.dark]    
 
 Blank == [ qperm |-> <<>>, atomOrder |-> <<>>, drive |-> <<>>, hasFilter |-> FALSE, wp |-> <<>>, off |-> <<>>, qc |-> 0,
            init |-> <<>>, imat |-> <<>>, ham |-> <<>>, ext |-> <<>>, occ |-> <<>>, bits |-> <<>>, corr |-> <<>>,
-           outcome |-> "running" ]
+           occX |-> <<>>, bitsX |-> <<>>, corrX |-> <<>>, outcome |-> "running" ]
+HasBase(sc)     == sc.tagmode \in {"base", "both"}
+HasSuffixed(sc) == sc.tagmode \in {"suffix", "both"}
 
 \* ============================================================================ emu-mps
 \* MPSBackendImpl.__init__
@@ -109,16 +120,22 @@ MpsFillResults(sc, s) ==
        THEN [s EXCEPT !.outcome = "raise:padding-hard-codes-dimension-2"]
        ELSE [s EXCEPT !.ext = [j \in Idx(sc.n) |-> IF s.wp[j] THEN s.ham[TrueBefore(s.wp, j)] ELSE PAD]]
 
-\* MPSBackendImpl.permute_results(results, permute = config.optimize_qubit_ordering)
+\* MPSBackendImpl.permute_results(results, permute = config.optimize_qubit_ordering):
+\*   permute_bitstrings / permute_occupations_and_correlations find the results to bring back by the tags
+\*   "bitstrings" / "occupation" / "correlation_matrix"   [allTags: by the base tag of every observable]
 MpsPermuteResults(sc, s) ==
-  IF sc.reorder
-  THEN LET inv == InvPermutation(s.qperm)
-       IN [s EXCEPT !.bits = PermuteString(s.ext, inv),                \* permute_bitstrings
-                    !.occ  = PermuteVector(s.ext, inv),                \* permute_occupations_and_correlations
-                    !.corr = PermuteMatrix(PairMatrix(s.ext), inv),
-                    !.atomOrder = PermuteList(s.atomOrder, inv),       \* permute_atom_order
-                    !.outcome = "ok"]
-  ELSE [s EXCEPT !.bits = s.ext, !.occ = s.ext, !.corr = PairMatrix(s.ext), !.outcome = "ok"]
+  LET inv   == InvPermutation(s.qperm)
+      back  == sc.reorder                        \* results stored under the exact tags
+      backX == sc.reorder /\ V.allTags           \* results stored under suffixed tags
+  IN [s EXCEPT
+        !.bits  = IF ~HasBase(sc) THEN <<>> ELSE IF back THEN PermuteString(s.ext, inv) ELSE s.ext,
+        !.occ   = IF ~HasBase(sc) THEN <<>> ELSE IF back THEN PermuteVector(s.ext, inv) ELSE s.ext,
+        !.corr  = IF ~HasBase(sc) THEN <<>> ELSE IF back THEN PermuteMatrix(PairMatrix(s.ext), inv) ELSE PairMatrix(s.ext),
+        !.bitsX = IF ~HasSuffixed(sc) THEN <<>> ELSE IF backX THEN PermuteString(s.ext, inv) ELSE s.ext,
+        !.occX  = IF ~HasSuffixed(sc) THEN <<>> ELSE IF backX THEN PermuteVector(s.ext, inv) ELSE s.ext,
+        !.corrX = IF ~HasSuffixed(sc) THEN <<>> ELSE IF backX THEN PermuteMatrix(PairMatrix(s.ext), inv) ELSE PairMatrix(s.ext),
+        !.atomOrder = IF sc.reorder THEN PermuteList(s.atomOrder, inv) ELSE s.atomOrder,   \* permute_atom_order
+        !.outcome = "ok"]
 
 \* ============================================================================ emu-sv
 \* SVBackendImpl.__init__ : no reordering; all atoms stay in the state
@@ -137,7 +154,11 @@ SvInitDarkQubits(sc, s) ==
                               IF bad[i] \/ bad[j] THEN <<OFF, OFF>> ELSE s.imat[i][j]]]]
 SvRun(sc, s) ==
   LET ham == [k \in Idx(sc.n) |-> <<s.drive[k], s.imat[k][k][1], s.imat[k][k][2], s.init[k]>>]
-  IN [s EXCEPT !.ham = ham, !.ext = ham, !.occ = ham, !.bits = ham, !.corr = PairMatrix(ham), !.outcome = "ok"]
+  IN [s EXCEPT !.ham = ham, !.ext = ham, !.outcome = "ok",
+               !.occ  = IF HasBase(sc) THEN ham ELSE <<>>, !.bits = IF HasBase(sc) THEN ham ELSE <<>>,
+               !.corr = IF HasBase(sc) THEN PairMatrix(ham) ELSE <<>>,
+               !.occX = IF HasSuffixed(sc) THEN ham ELSE <<>>, !.bitsX = IF HasSuffixed(sc) THEN ham ELSE <<>>,
+               !.corrX = IF HasSuffixed(sc) THEN PairMatrix(ham) ELSE <<>>]
 
 \* ============================================================================ the whole run as a function
 Stopped(s) == s.outcome # "running"
